@@ -40,6 +40,10 @@ CLAIMED["C05"] = dict(engine="E1", technique="symbolic execution of the real mod
     text="Every bit sequence of L symbols (L = 2/3) in three layouts, for every scheme/order/labelling/normalisation option of the catalogue (also through the registry), in one query per output tensor; memory schemes after reset in eval mode with their documented start-up loss.",
     note="Table leaves are computed by torch itself (exact float32/complex64), so there is no reals-for-floats gap here; the table domain is limited to 16 selector bits per element. Orders up to 16 (quick) / 64 (thorough), QAM-256 stretch.",
     ref="DESIGN.md §4 C05")
+CLAIMED["C14"] = dict(engine="E1+E2", technique="modems: symbolic execution of the real modulator on two symbolic labels (finite tables with torch-computed leaves), z3 decides injectivity / agreement with the published tables / Gray neighbourhood; Gray utilities: AST-level symbolic interpretation of the real source over QF_BV(64), fork per trip count, z3 (cvc5 cross-check on a sample)",
+    text="Per modem all 4^b label pairs are covered by one query per clause (distinct points, forward agrees with constellation/bit_patterns, nearest neighbours differ in one bit when Gray is requested); unit energy and table distinctness are ground facts in exact rational arithmetic. Gray utilities: round trips, injectivity, adjacency and rejection of negatives for every n < 2^60, scalar and array forms.",
+    note="Gray clause uses d_min of the published table with a 1e-4 relative margin. E2 is validated on every run against the repository's own test literals and seeded random inputs; known findings: the 1023/1365 literals (asserted by the existing tests) and the DPSK / pi/4-QPSK Gray label mismatch.",
+    ref="DESIGN.md §4 C14")
 NOT_YET = {}
 
 PENDING_REASON = "check not built yet in this round (planned: see DESIGN.md §8); not claimed until its check exists"
